@@ -331,6 +331,7 @@ impl DrawExecutor {
     }
 
     fn draw_circle(&mut self, xm: i32, ym: i32, r: i32) {
+        let r = r.clamp(0, 0x7FFF);
         let mut x = -r;
         let mut y = 0;
         let mut err = 2 - 2 * r;
@@ -355,7 +356,8 @@ impl DrawExecutor {
 
     fn draw_ellipse(&mut self, xm: i32, ym: i32, a: i32, b: i32) {
         // the error terms hold products of the radii: 64 bit, or large radii wrap and the loop runs away
-        let (a, b) = (i64::from(a), i64::from(b));
+        // radii far beyond the canvas only cost time (and would overflow the error terms again)
+        let (a, b) = (i64::from(a.clamp(0, 0x7FFF)), i64::from(b.clamp(0, 0x7FFF)));
         let mut x = -a;
         let mut y = 0; /* II. quadrant from bottom left to top right */
         let e2 = b * b;
@@ -391,7 +393,8 @@ impl DrawExecutor {
 
     fn fill_ellipse(&mut self, xm: i32, ym: i32, a: i32, b: i32) {
         // the error terms hold products of the radii: 64 bit, or large radii wrap and the loop runs away
-        let (a, b) = (i64::from(a), i64::from(b));
+        // radii far beyond the canvas only cost time (and would overflow the error terms again)
+        let (a, b) = (i64::from(a.clamp(0, 0x7FFF)), i64::from(b.clamp(0, 0x7FFF)));
         let mut x = -a;
         let mut y = 0; /* II. quadrant from bottom left to top right */
         let e2 = b * b;
